@@ -134,3 +134,27 @@ theorem compensate_same_scale (m : Int) (s : Nat) : compensate ⟨m, s⟩ s = .o
   rw [if_neg (by simp), if_pos rfl]
 
 end Gmx.Dec
+
+namespace Gmx.Dec
+
+/-- dividing down a magnitude whose dropped digits are all zero is exact and leaves remainder 0. -/
+theorem downLoop_div : ∀ (k v r : Nat), v ≠ 0 → 10 ^ k ∣ v →
+    downLoop k v r = some (v / 10 ^ k, if k = 0 then r else 0)
+  | 0, v, r, _, _ => by simp [downLoop]
+  | k + 1, v, r, hv, ⟨c, hc⟩ => by
+    have ht : v = 10 * (10 ^ k * c) := by rw [hc, Nat.pow_succ, Nat.mul_comm (10 ^ k) 10, Nat.mul_assoc]
+    have hc0 : c ≠ 0 := by intro h; subst h; simp at hc; exact hv hc
+    have hp : 0 < 10 ^ k := Nat.pow_pos (by omega)
+    have hd : v / 10 = 10 ^ k * c := by omega
+    have hm : v % 10 = 0 := by omega
+    have hne : v / 10 ≠ 0 := by
+      rw [hd]; exact Nat.mul_ne_zero (by omega) hc0
+    unfold downLoop
+    rw [if_neg hv, downLoop_div k (v / 10) (v % 10) hne ⟨c, hd⟩, hd, hm]
+    have e1 : 10 ^ k * c / 10 ^ k = c := Nat.mul_div_cancel_left c hp
+    have e2 : v / 10 ^ (k + 1) = c := by
+      rw [hc]; exact Nat.mul_div_cancel_left c (Nat.pow_pos (by omega))
+    rw [e1, e2]
+    cases k <;> simp
+
+end Gmx.Dec
